@@ -55,7 +55,7 @@ def bounds(tier):
     }
 
 
-CAP = {"quick": 20000, "thorough": 400000}
+CAP = {"quick": 20000, "thorough": 120000}
 REAL_REPLAYS = {"quick": 3, "thorough": 8}
 
 
@@ -217,10 +217,12 @@ def explore_config(res, c, scratch, tier, fault=None, judge_fn=None, tag="C11", 
     b = dev_bound if dev_bound is not None else bounds(tier)["deviation_bound_unpruned"]
     if budget is None:
         budget = [CAP[tier]]
-    e1 = vmp.Explorer(cfg, fault=fault, bound=b, on_exec=on_exec, max_execs=max(1, budget[0])).explore()
-    budget[0] -= e1.execs
+    # the complete (pruned) exploration first: it is the one that covers the whole schedule tree; the unpruned
+    # deviation-bounded one gets what is left of the shard's budget
     e2 = vmp.Explorer(cfg, fault=fault, bound=None, on_exec=on_exec, max_execs=max(1, budget[0]), prune=True).explore()
     budget[0] -= e2.execs
+    e1 = vmp.Explorer(cfg, fault=fault, bound=b, on_exec=on_exec, max_execs=max(1, budget[0] // 2)).explore()
+    budget[0] -= e1.execs
     res.count("executions_bounded_unpruned", e1.execs)
     res.count("executions_complete_pruned", e2.execs)
     res.count("states", len(e1.states | e2.states))
